@@ -324,3 +324,52 @@ def hand_fold(s, docs, strict):
             except Exception as e:
                 return str(ro), failed, e, applied
     return str(ro), failed, None, applied
+
+
+# --------------------------------------------------------------------------
+# the repository's own test-suite as a workload (monitors attached by
+# mon/auto/sitecustomize.py inside the pytest process)
+
+def suite_workload(s, only_worker=None):
+    """Run `pytest tests` of the repository with BBC_MOSROMGR_VERIF=1 and judge
+    every + it performs with the same oracles.  Messages the interpreter cannot
+    read as schema-shaped are counted as out of claim by the judge."""
+    import glob
+    import json
+    import os
+    import subprocess
+    import sys
+    import tempfile
+    if only_worker is None:
+        only_worker = s.nw - 1
+    if s.wi != only_worker:
+        return
+    from ..run import worker_env, HERE
+    from ..attach import repo_root
+    repo = repo_root()
+    if not os.path.isdir(os.path.join(repo, 'tests')):
+        s.notes.append('repository test-suite not found; suite workload skipped')
+        return
+    tmp = tempfile.mkdtemp(prefix='verif-suite-')
+    env = worker_env({'VERIF_EVENT_OUT': os.path.join(tmp, 'ev'), 'VERIF_COV': '0'})
+    env['PYTHONPATH'] = os.pathsep.join([repo, os.path.join(HERE, 'mon', 'auto')])
+    try:
+        p = subprocess.run([sys.executable, '-B', '-m', 'pytest', '-q', '-x', '-p', 'no:cacheprovider', 'tests'],
+                           cwd=repo, env=env, capture_output=True, text=True, timeout=600)
+        s.hist['suite:pytest_rc=%d' % p.returncode] += 1
+        n = 0
+        for f in glob.glob(os.path.join(tmp, 'ev.*.json')):
+            data = json.load(open(f))
+            for ev in data['events']:
+                if ev.get('ev') == 'ADD':
+                    n += 1
+                    s.judge_event(ev, None, {'workload': 'repository test-suite'})
+            for fail in data.get('acc_fail', []):
+                s.hist['suite:accessor_%s:%s.%s' % (fail['kind'], fail['cls'], fail['name'])] += 1
+        s.hist['suite:add_events_judged'] += n
+    except subprocess.TimeoutExpired:
+        s.notes.append('repository test-suite workload timed out (not a verdict)')
+    finally:
+        for f in glob.glob(os.path.join(tmp, '*')):
+            os.unlink(f)
+        os.rmdir(tmp)
